@@ -36,9 +36,43 @@ ENGINES = ["harness", "irsan", "canon", "corpus"]
 ASSUMPTIONS = ["corpus chunks that parse and verify are valid inputs for every pass",
                "xDSL verifier and parser decide validity/printability; canon decides equality of reparsed IR"]
 JOB_TIMEOUT = {"quick": 1500, "thorough": 14400}
-CASE_SECONDS = 20
-NSHARDS = {"quick": 32, "thorough": 64}
-QUICK_RANDOM_SHARE = 0.12
+CASE_CPU_SECONDS = {"quick": 15, "thorough": 40}   # CPU time (ITIMER_PROF), not wall: robust under load
+NSHARDS = {"quick": 16, "thorough": 64}
+QUICK_AFFINE_CAP = 10      # quick: at most this many name-affine passes per module ...
+QUICK_RANDOM = 3           # ... plus this many random other passes
+
+
+def canon_diff(a, b, path="module"):
+    """First differing position of two canonical forms, as a short mechanism string (no payload values)."""
+    if type(a) is not type(b):
+        return f"{path}:type"
+    if isinstance(a, tuple):
+        if a and b and isinstance(a[0], str) and isinstance(b[0], str) and a[0] == "op" == b[0]:
+            if a[1] != b[1]:
+                return f"{path}:op-name"
+            names = ["", "", "operands", "results", "properties", "attributes", "successors", "regions", "loc"]
+            for i in range(2, min(len(a), len(b))):
+                if a[i] != b[i]:
+                    sub = f"{a[1]}.{names[i] if i < len(names) else i}"
+                    if i in (4, 5):
+                        ka, kb = dict(a[i]), dict(b[i])
+                        for k in sorted(set(ka) | set(kb)):
+                            if ka.get(k) != kb.get(k):
+                                va, vb = ka.get(k), kb.get(k)
+                                cls = (va or vb)[1].rsplit(".", 1)[-1] if isinstance(va or vb, tuple) and len(va or vb) > 1 else "?"
+                                how = "missing" if va is None or vb is None else "value"
+                                return f"{sub}.{k}:{how}:{cls}"
+                    if i == 7:
+                        return canon_diff(a[i], b[i], a[1])
+                    return sub
+            return f"{path}:op-arity"
+        if len(a) != len(b):
+            return f"{path}:len"
+        for x, y in zip(a, b):
+            if x != y:
+                return canon_diff(x, y, path)
+        return f"{path}:?"
+    return f"{path}:leaf"
 
 
 class CaseTimeout(BaseException):
@@ -47,6 +81,10 @@ class CaseTimeout(BaseException):
 
 def _alarm(*_a):
     raise CaseTimeout()
+
+
+def _arm(seconds):
+    signal.setitimer(signal.ITIMER_PROF, seconds)
 
 
 def norm_msg(e: BaseException) -> str:
@@ -192,7 +230,7 @@ def work(job):  # noqa: C901
     all_variants = sorted({v for vs in variants.values() for v in vs})
     overriders = [n for n, cls in classes.items() if "schedule_space" in cls.__dict__]
 
-    signal.signal(signal.SIGALRM, _alarm)
+    signal.signal(signal.SIGPROF, _alarm)
     chunks = corpus.chunks()
     mine = corpus.shard(list(enumerate(chunks)), job["shard"], job["nshards"])
     triggered = set()
@@ -207,13 +245,13 @@ def work(job):  # noqa: C901
         res["evaluations"] += 1
         C["pairs"] += 1
         sink = io.StringIO()
-        signal.alarm(CASE_SECONDS)
+        _arm(CASE_CPU_SECONDS[tier])
         try:
             try:
                 with contextlib.redirect_stdout(sink), contextlib.redirect_stderr(sink):
                     inst.apply(ctx, m)
             finally:
-                signal.alarm(0)
+                _arm(0)
         except CaseTimeout:
             C["reported_failure_timeout"] += 1
             res["sets"].setdefault("timeouts", set()).add(spec)
@@ -228,8 +266,9 @@ def work(job):  # noqa: C901
         where = {"file": rel, "chunk": idx, "pass": spec}
 
         def viol(stage, msg, detail):
-            key = f"pass:{pname}:{stage}:{msg}"
-            if key in seen_keys and len(res["violations"]) > 400:
+            key = f"pass:{pname}:{stage}:{msg}@{rel}"
+            if key in seen_keys:
+                C["violations_same_key_again"] += 1
                 return
             seen_keys.add(key)
             res["violations"].append({"key": key, "summary": f"{spec} on {rel}#{idx}: {stage}: {detail}"[:400],
@@ -263,8 +302,8 @@ def work(job):  # noqa: C901
             res["nontrivial"].append(shash((spec, rel, idx)))
             if len(res["samples"]) < 2:
                 res["samples"].append({"pass": spec, "file": rel, "chunk": idx, "ops_after": st["ops"]})
-        if not changed and base_canon is not None and not RT_ALWAYS:
-            return
+        if not changed:
+            return  # the unmodified module is known to round-trip (checked once per module below)
         # (d) print / reparse / canon
         try:
             s = io.StringIO()
@@ -283,10 +322,11 @@ def work(job):  # noqa: C901
             viol("reparse", norm_msg(e), str(e)[-300:])
             return
         C["monitor_reparse"] += 1
-        if canon_ir(m2) != after:
-            viol("reparse", "canon-differs", "generic print re-parses to a different canonical form")
+        c2 = canon_ir(m2)
+        if c2 != after:
+            viol("reparse", "canon-differs:" + canon_diff(after, c2),
+                 "generic print re-parses to a different canonical form: " + canon_diff(after, c2))
 
-    RT_ALWAYS = False
     for gi, (rel, idx, text) in mine:
         pv = corpus.parse_verified(text, rel)
         if pv is None:
@@ -309,16 +349,15 @@ def work(job):  # noqa: C901
             raise RuntimeError(f"harness: clone of {rel}#{idx} differs from the parsed module")
         toks = module_tokens(m0)
         todo = []
-        for n, inst in defaults.items():
-            if tier == "thorough":
-                todo.append((n, n, inst))
-            else:
-                ptoks = set(n.replace("_", "-").split("-"))
-                if ptoks & toks or rng.random() < QUICK_RANDOM_SHARE:
-                    todo.append((n, n, inst))
-        vs = list(variants.get(rel, []))
-        if all_variants:
-            vs += rng.sample(all_variants, min(len(all_variants), 3 if tier == "quick" else 12))
+        if tier == "thorough":
+            todo = [(n, n, inst) for n, inst in defaults.items()]
+            vs = list(all_variants)
+        else:
+            aff = [n for n in defaults if set(n.replace("_", "-").split("-")) & toks]
+            rest = [n for n in defaults if n not in aff]
+            pick = rng.sample(aff, min(len(aff), QUICK_AFFINE_CAP)) + rng.sample(rest, min(len(rest), QUICK_RANDOM))
+            todo = [(n, n, defaults[n]) for n in pick]
+            vs = list(variants.get(rel, []))[:4] + rng.sample(all_variants, min(len(all_variants), 1))
         for n, spec in vs:
             try:
                 inst = classes[n].from_spec(list(parse_pipeline(spec))[0])
@@ -334,8 +373,8 @@ def work(job):  # noqa: C901
                 continue
             space = list(space)
             C["schedule_space_members"] += len(space)
-            if len(space) > 6:
-                space = rng.sample(space, 6)
+            if tier == "quick" and len(space) > 2:
+                space = rng.sample(space, 2)
             for inst in space:
                 todo.append((n, "space:" + str(inst.spec()), inst))
         for n, spec, inst in todo:
@@ -352,11 +391,11 @@ def finish(agg, tier):
     c = agg.counters
     if c.get("modules", 0) < 600:
         inc.append(f"only {c.get('modules', 0)} verified corpus modules used (<600)")
-    if c.get("succeeded", 0) < (8000 if tier == "quick" else 60000):
+    if c.get("succeeded", 0) < (5000 if tier == "quick" else 60000):
         inc.append(f"only {c.get('succeeded', 0)} successful pass applications observed")
-    if c.get("changed", 0) < (800 if tier == "quick" else 5000):
+    if c.get("changed", 0) < (600 if tier == "quick" else 5000):
         inc.append(f"only {c.get('changed', 0)} successful applications changed the module")
-    if len(agg.sets.get("passes_succeeded", ())) < 100:
+    if len(agg.sets.get("passes_succeeded", ())) < 90:
         inc.append(f"only {len(agg.sets.get('passes_succeeded', ()))} distinct passes ever succeeded")
     loadable = c.get("passes_loadable", 0)
     untriggered = None
